@@ -9,9 +9,9 @@ arithmetic is replaced by EXACT rational arithmetic (`Q` = numerator/denominator
 cross-multiplication); what float rounding adds is covered by the stated tolerance of the
 correspondence check, not by the theorems.  Core Lean only.
 
-The model is of the REPAIRED code (fixes/C15-sniffunit-mus.patch: `sniffUnit` tries the exact
-lower-cased alias before stripping a plural "s"; fixes/C15-autoscale-minint64.patch: `autoScale`
-compares the magnitude `|value|`).  `strings.ToLower` is modelled as ASCII lower-casing: the
+The model is of the REPAIRED code (fixes/C15-sniffunit-mus.patch, /repo commit 8458820: `sniffUnit`
+tries the exact lower-cased alias before stripping a plural "s"; fixes/C15-autoscale-minint64.patch,
+/repo commit 76c348f: `autoScale` compares the magnitude `|value|`).  `strings.ToLower` is modelled as ASCII lower-casing: the
 model is only asked about strings on which the two agree (checked by the harness).
 -/
 namespace PV.Measure
